@@ -471,3 +471,20 @@ def const_expr_inputs(rng, n):
             e = e.replace("(N - 4)", "(3 - 4)")
         out.append((ctx % e).encode("utf-8"))
     return out
+
+
+def const_expr_systematic():
+    """Exhaustive: every compile-time context x {<<, >>, /, %} x risky operand pairs (negative, zero, >= bit width,
+    INT_MIN, mixed suffixes, an expression over another constant)."""
+    A = ["0", "1", "-1", "8", "2147483647", "-2147483648", "1u", "4294967295u"]
+    B = ["-1", "0", "31", "32", "33", "63", "64", "65", "-2147483648", "(N - 4)", "4294967295", "1u", "-1i"]
+    out = []
+    for ctx in CONST_CONTEXTS:
+        for op in ("<<", ">>", "/", "%"):
+            for a in A:
+                for b in B:
+                    e = "%s %s %s" % (a, op, b)
+                    if "(N - 4)" in e and "const N" not in ctx:
+                        e = e.replace("(N - 4)", "(3 - 4)")
+                    out.append((ctx % e).encode("utf-8"))
+    return out
